@@ -14,6 +14,8 @@ pub proof fn lemma_buf_extends_same_len(a: Seq<u8>, b: Seq<u8>) requires buf_ext
 { reveal(buf_extends); assert(b.take(b.len() as int) =~= b); }
 pub trait SocketIo {
     spec fn accepted(&self) -> Seq<u8>;
+    // the peer has closed its sending side (a read returned 0 bytes) or the connection was reset
+    spec fn peer_gone(&self) -> bool;
     fn poll_write(&mut self, cx: &mut Context<'_>, buf: &[u8]) -> (r: Poll<io::Result<usize>>)
         ensures
             final(cx).spec_waker() == old(cx).spec_waker(),
@@ -33,9 +35,10 @@ pub trait SocketIo {
             final(cx).spec_waker() == old(cx).spec_waker(),
             final(self).accepted() == old(self).accepted(),
             match r {
-                Poll::Ready(Ok(n)) => final(buf)@.len() == old(buf)@.len() + n && buf_extends(old(buf)@, final(buf)@)
+                Poll::Ready(Ok(n)) => final(buf)@.len() == old(buf)@.len() + n && buf_extends(old(buf)@, final(buf)@) && (n == 0 ==> final(self).peer_gone()) && (n > 0 ==> final(self).peer_gone() == old(self).peer_gone())
                     && old(buf)@.len() + n <= old(buf).spec_capacity() && final(buf).spec_capacity() == old(buf).spec_capacity(),
-                Poll::Ready(Err(e)) => final(buf)@ == old(buf)@ && e.spec_kind() != io::ErrorKind::WouldBlock /* AsyncRead contract: not-ready is Pending, never a WouldBlock error */,
-                Poll::Pending => final(buf)@ == old(buf)@ && io_registered(old(cx).spec_waker().wid()),
+                Poll::Ready(Err(e)) => final(buf)@ == old(buf)@ && e.spec_kind() != io::ErrorKind::WouldBlock /* AsyncRead contract: not-ready is Pending, never a WouldBlock error */
+                    && (e.spec_kind() == io::ErrorKind::ConnectionReset ==> final(self).peer_gone()) && (e.spec_kind() != io::ErrorKind::ConnectionReset ==> final(self).peer_gone() == old(self).peer_gone()),
+                Poll::Pending => final(buf)@ == old(buf)@ && io_registered(old(cx).spec_waker().wid()) && final(self).peer_gone() == old(self).peer_gone(),
             };
 }
